@@ -37,6 +37,8 @@ func rulesC01(c *Ctx) {
 	ruleC19Null(c)
 	// every set predicate walks a cursor of its own
 	ruleFreshSetCursor(c, "C01.FRESHCURSOR", "boltz", "objectz")
+	ruleToFloatIdentity(c, "C01.TOFLOAT")
+	ruleRawEntitiesCursor(c, "C01.RAWROWS")
 	ruleNeverWritten(c, "C01.FIELDS", astNodeTypes(c))
 	cts := c.cursorTypes()
 	isCT := map[*types.Named]bool{}
